@@ -284,7 +284,7 @@ def _cases(ctx, nl, seed_mul=29, per_lens=2):
     for li in range(nl):
         spec = c09lib.gen_spec(rng)
         try:
-            o = lensgen.build(spec)
+            o = c09lib.build(spec)
         except Exception as e:   # noqa
             hist['build_errors'][type(e).__name__] = hist['build_errors'].get(type(e).__name__, 0) + 1
             continue
@@ -340,7 +340,7 @@ def _derived_checks(ctx):
         for f in spec['fields']:
             f[2] = f[3] = 0.0
         try:
-            o = lensgen.build(spec)
+            o = c09lib.build(spec)
             w = spec['wavelengths'][0][0]
             H = o.fields.get_field_coords()[-1]
             H = (float(H[0]), float(H[1]))
@@ -408,7 +408,7 @@ def _derived_checks(ctx):
         if len(spec['fields']) < 2 and len(spec['wavelengths']) < 2:
             continue
         try:
-            o = lensgen.build(spec)
+            o = c09lib.build(spec)
             dist = c09lib.make_distribution(rng.choice(['hexapolar', 'cross', 'ring']), 2)
             order = [float(w_) for w_, _ in spec['wavelengths']]
             if tries % 2:
@@ -479,7 +479,7 @@ def _multi_checks(ctx, nl, seed_mul=43):
         tries += 1
         spec = c09lib.gen_dispersive_spec(rng)
         try:
-            o = lensgen.build(spec)
+            o = c09lib.build(spec)
             wls = [float(w_) for w_, _ in spec['wavelengths']]
             fields = [tuple(float(v) for v in H) for H in o.fields.get_field_coords()]
             dn = rng.choice(['hexapolar', 'ring', 'line_y', 'uniform'])
@@ -542,6 +542,184 @@ def _multi_checks(ctx, nl, seed_mul=43):
     return cells, hist['lenses'], wits, hist
 
 
+def _lifecycle_checks(ctx, nl, seed_mul=53):
+    """the reported values at ANY time of an analysis object's life: OPD, ZernikeOPD, OPDFan, Wavefront and
+    RmsWavefrontErrorVsField objects built on lenses with non-unit ray intensities (coatings with T < 1,
+    clipping apertures, absorbing glass); every public query (data, rms(), view() in both projections under Agg,
+    view_residual(), fit coefficients, the rms table) is run in a shuffled order with repeats, and after EVERY step
+    data / rms() / table / coefficients are compared with the independent recomputation from the traced rays.
+    Returns (evaluations, lenses, witnesses, histogram)"""
+    import random
+    import warnings
+    import numpy as np
+    import matplotlib
+    matplotlib.use('Agg')
+    import matplotlib.pyplot as plt
+    import lensgen
+    import c09lib
+    warnings.simplefilter('ignore')
+    np.seterr(all='ignore')
+    from optiland.wavefront import Wavefront, OPDFan, OPD, ZernikeOPD
+    from optiland.analysis.rms_vs_field import RmsWavefrontErrorVsField
+    rng = random.Random(ctx.seed * seed_mul + 9)
+    hist = {'lenses': 0, 'lossy_kinds': {}, 'objects': {}, 'steps': 0, 'queries': {}, 'min_intensity': 1.0,
+            'samples_with_intensity_below_1': 0, 'samples_clipped_to_0': 0, 'errors': {}}
+    wits = []
+    evals = 0
+    tries = 0
+
+    def rms_of(v):
+        v = np.asarray(v, dtype=float)
+        return float(np.sqrt(np.sum(v * v) / v.size))
+
+    def close(a, b, tol):
+        if not (math.isfinite(a) and math.isfinite(b)):
+            return math.isfinite(a) == math.isfinite(b)
+        return abs(a - b) <= tol + 1e-9 * (abs(a) + abs(b))
+
+    while hist['lenses'] < nl and tries < 10 * nl:
+        tries += 1
+        spec = c09lib.gen_lossy_spec(rng)
+        try:
+            o = c09lib.build(spec)
+            w = float(rng.choice(spec['wavelengths'])[0])
+            H = tuple(float(v) for v in o.fields.get_field_coords()[-1])
+            rings = rng.choice([2, 3])
+            objs = {'OPD': OPD(o, H, w, num_rings=rings),
+                    'ZernikeOPD': ZernikeOPD(o, H, w, num_rings=3, zernike_type=rng.choice(['fringe', 'standard', 'noll']),
+                                             num_terms=rng.choice([6, 10])),
+                    'OPDFan': OPDFan(o, fields=[H], wavelengths=[w], num_rays=5),
+                    'Wavefront': Wavefront(o, fields=[H], wavelengths=[w], num_rays=2, distribution='hexapolar'),
+                    'RmsWavefrontErrorVsField': RmsWavefrontErrorVsField(o, num_fields=2, wavelengths='all', num_rays=2)}
+            # reference values, from traced rays only
+            ref = {}
+            usable = True
+            for name, ob in objs.items():
+                cells = []
+                flds = [tuple(float(v) for v in f) for f in ob.fields]
+                for i, f in enumerate(flds):
+                    for j, w_ in enumerate(ob.wavelengths):
+                        c = c09lib.case_from_data(spec, o, f, float(w_), ob.distribution, ob.data[i][j][0], ob.data[i][j][1],
+                                                  fidx=i, dist_name=name)
+                        if not all(math.isfinite(v) for v in c['chief'][-1][:6]):
+                            usable = False
+                            break
+                        exp = c09lib.expected_samples(c)
+                        cells.append((i, j, c, exp, c09lib.newton_slack(c)))
+                    if not usable:
+                        break
+                if not usable:
+                    break
+                ref[name] = cells
+            if not usable:
+                continue
+            zcoef0 = [float(v) for v in objs['ZernikeOPD'].coeffs]
+        except Exception as e:   # noqa
+            hist['errors'][type(e).__name__] = hist['errors'].get(type(e).__name__, 0) + 1
+            continue
+        inten = np.concatenate([np.ravel(c['intensity']) for cells in ref.values() for _, _, c, _, _ in cells])
+        inten = inten[np.isfinite(inten)]
+        if inten.size == 0 or not np.any(inten < 1.0):
+            continue                      # the losses did not reach any sample: not the input class of this check
+        hist['lenses'] += 1
+        for k in spec['lossy']:
+            hist['lossy_kinds'][k] = hist['lossy_kinds'].get(k, 0) + 1
+        hist['min_intensity'] = min(hist['min_intensity'], float(inten.min()))
+        hist['samples_with_intensity_below_1'] += int(np.sum(inten < 1.0))
+        hist['samples_clipped_to_0'] += int(np.sum(inten == 0.0))
+
+        def verify(name, history):
+            """every observable of object `name` against the recomputation; returns a witness or None"""
+            nonlocal evals
+            ob = objs[name]
+            for (i, j, c, exp, slack) in ref[name]:
+                data = [float(v) for v in np.ravel(ob.data[i][j][0])]
+                evals += 1
+                bad = [k for k, (a, b) in enumerate(zip(data, exp)) if not close(a, b, 1e-6 + slack)]
+                if bad:
+                    k = bad[0]
+                    return {'observable': 'data', 'field': list(c['H']), 'cell_wavelength': c['w'], 'sample': k, 'pupil': list(c['dist'][k]),
+                            'intensity': c['intensity'][k], 'reported_waves': data[k], 'expected_waves': exp[k],
+                            'bad_samples': len(bad), 'samples': len(data)}
+                inow = [float(v) for v in np.ravel(ob.data[i][j][1])]
+                if any(not close(a, b, 1e-9) for a, b in zip(inow, c['intensity'])):
+                    return {'observable': 'intensity', 'field': list(c['H'])}
+            fin = all(math.isfinite(v) for v in ref[name][0][3])
+            if name in ('OPD', 'ZernikeOPD') and fin:
+                evals += 1
+                e = rms_of(ref[name][0][3])
+                r = float(ob.rms())
+                if not close(r, e, 1e-6 + ref[name][0][4]):
+                    return {'observable': 'rms()', 'reported': r, 'expected': e}
+            if name == 'ZernikeOPD':
+                evals += 1
+                cf = [float(v) for v in ob.coeffs]
+                if any(not close(a, b, 1e-9) for a, b in zip(cf, zcoef0)):
+                    return {'observable': 'coeffs', 'reported': cf[:4], 'at_construction': zcoef0[:4]}
+                zz = [float(v) for v in np.ravel(ob.z)]
+                if any(not close(a, b, 1e-6 + ref[name][0][4]) for a, b in zip(zz, ref[name][0][3])):
+                    return {'observable': 'fitted samples z'}
+            if name == 'RmsWavefrontErrorVsField':
+                for (i, j, c, exp, slack) in ref[name]:
+                    if all(math.isfinite(v) for v in exp):
+                        evals += 1
+                        r = float(ob._wavefront_error[i][j])
+                        r2 = float(ob._rms_wavefront_error()[i][j])
+                        e = rms_of(exp)
+                        if not close(r, e, 1e-6 + slack) or not close(r2, e, 1e-6 + slack):
+                            return {'observable': 'rms-vs-field table', 'field': list(c['H']), 'cell_wavelength': c['w'],
+                                    'reported': [r, r2], 'expected': e}
+            return None
+
+        queries = {
+            'OPD': ['data', 'rms', 'view2d', 'view3d', 'rms', 'view2d'],
+            'ZernikeOPD': ['data', 'rms', 'coeffs', 'view2d', 'view3d', 'view_residual', 'rms'],
+            'OPDFan': ['data', 'view', 'view'],
+            'Wavefront': ['data', 'data'],
+            'RmsWavefrontErrorVsField': ['data', 'view', 'table', 'view'],
+        }
+        for name, ob in objs.items():
+            hist['objects'][name] = hist['objects'].get(name, 0) + 1
+            seq = list(queries[name])
+            rng.shuffle(seq)
+            history = ['construct']
+            wit = verify(name, history)
+            for q in ([] if wit else seq):
+                history.append(q)
+                hist['steps'] += 1
+                hist['queries'][q] = hist['queries'].get(q, 0) + 1
+                try:
+                    if q == 'data':
+                        _ = [np.asarray(cell[0]).sum() for row in ob.data for cell in row]
+                    elif q == 'rms':
+                        ob.rms()
+                    elif q == 'coeffs':
+                        _ = ob.coeffs
+                    elif q == 'table':
+                        ob._rms_wavefront_error()
+                    elif q == 'view':
+                        ob.view()
+                    elif q == 'view2d':
+                        ob.view(projection='2d', num_points=24)
+                    elif q == 'view3d':
+                        ob.view(projection='3d', num_points=24)
+                    elif q == 'view_residual':
+                        ob.view_residual()
+                except Exception as e:   # noqa
+                    hist['errors'][q + ':' + type(e).__name__] = hist['errors'].get(q + ':' + type(e).__name__, 0) + 1
+                finally:
+                    plt.close('all')
+                wit = verify(name, history)
+                if wit:
+                    break
+            if wit:
+                wit.update({'spec': spec, 'derived': f'{name}: a reported value is no longer the path difference on its pupil samples '
+                                                     f'after {history[-1]}', 'object': name, 'H': list(H), 'wavelength': w,
+                            'sequence': history, 'explained_by': None, 'violates_property': True})
+                wits.append(wit)
+    return evals, hist['lenses'], wits, hist
+
+
 def system_checks(ctx):
     import c09lib
     cases, hist = _cases(ctx, ctx.n(55, 700))
@@ -590,6 +768,18 @@ def system_checks(ctx):
         import traceback
         res3['error'] = traceback.format_exc()[-800:]
     yield res3
+    res4 = {'name': 'object-lifecycle-on-lossy-lenses-vs-oracle', 'n': 0, 'nontrivial': 0, 'samples': [], 'disagreements': []}
+    try:
+        n4, l4, w4, h4 = _lifecycle_checks(ctx, ctx.n(6, 60))
+        res4.update(n=n4, nontrivial=l4, histogram=h4, disagreements=w4[:20])
+        res4['note'] = ('lenses with non-unit ray intensities (coating T<1 / clipping aperture / absorbing glass): OPD, ZernikeOPD, OPDFan, '
+                        'Wavefront, RmsWavefrontErrorVsField objects; public queries (data, rms(), view 2d/3d, view_residual, coeffs, table) in '
+                        'shuffled order with repeats; data / rms / table / coefficients re-compared with the recomputation from traced rays '
+                        'after every step')
+    except Exception as e:   # noqa
+        import traceback
+        res4['error'] = traceback.format_exc()[-800:]
+    yield res4
     res2 = {'name': 'derived-quantities-vs-implementation', 'n': 0, 'nontrivial': 0, 'samples': [], 'disagreements': []}
     try:
         n, lenses, bad = _derived_checks(ctx)
@@ -624,6 +814,10 @@ def search(ctx, broken, disagreements):
         if wits:
             unlisted = wits[0]
     if unlisted is None:
+        _, _, wits, _ = _lifecycle_checks(ctx, ctx.n(10, 80), seed_mul=59)
+        if wits:
+            unlisted = wits[0]
+    if unlisted is None:
         unlisted = _derived_oracle(ctx)
     return unlisted or listed
 
@@ -646,7 +840,7 @@ def _derived_oracle(ctx):
         for f in spec['fields']:
             f[2] = f[3] = 0.0
         try:
-            o = lensgen.build(spec)
+            o = c09lib.build(spec)
             w = spec['wavelengths'][0][0]
             H = tuple(float(v) for v in o.fields.get_field_coords()[-1])
             n = rng.choice([3, 5, 8])
@@ -743,7 +937,7 @@ def replay_finding(ctx, f):
     spec = _replay_spec(f['id'])
     if spec is None:
         return None
-    o = lensgen.build(spec)
+    o = c09lib.build(spec)
     c = c09lib.make_case(spec, o, 1, 0.55, 'hexapolar', 3)
     w = c09lib.oracle_case(c)
     return bool(w and w.get('explained_by') == [f['id']])
